@@ -4,7 +4,7 @@
    RFC 4180 reader, and the exit status. *)
 From Coq Require Import List NArith ZArith Arith Permutation Bool String.
 From RareV Require Import Base.Hex Base.Num Model.Batch Model.Pipeline Model.AggLoop Model.Agg Model.CsvFile Model.Exit
-  Proofs.PipelineProof Proofs.ReduceOrder Proofs.C03Proof Proofs.CsvFileProof Gen.GenC06.
+  Proofs.PipelineProof Proofs.ReduceOrder Proofs.C03Proof Proofs.CsvFileProof Gen.GenC06 Model.Skel Gen.GenSkel.
 Import ListNotations.
 
 (* whatever the schedule, worker count, reader concurrency, channel capacities and batching, the keys
@@ -54,6 +54,12 @@ Proof. exact a_run_perm. Qed.
 Print Assumptions C03_accumulator_order_insensitive.
 (* the marker the correspondence uses is not an integer *)
 Example C03_bad_type_not_int : atoi (of_str "<BAD-TYPE>") = None.
+Proof. vm_compute. reflexivity. Qed.
+
+(* translator obligation for the 1x1 order theorem below: the reader pool hands the files to the readers in
+   argument order because the SPAWNING LOOP takes the semaphore slot before it starts a reader (Model/Skel.v
+   open_files_ok on the regenerated skeleton of OpenFilesToChan; see C01_skeleton) *)
+Theorem C03_files_in_argument_order : open_files_ok skel_open_files = true.
 Proof. vm_compute. reflexivity. Qed.
 
 (* ANY accumulator (analyze, reduce: order-sensitive ones included) with one reader at a time and one worker *)
